@@ -35,6 +35,7 @@ struct St {
     samples_emitted: usize,
     struct_cases: usize,
     max_struct_cases: usize,
+    enc_cases: usize,
 }
 
 fn enc_key(e: &str) -> String {
@@ -117,6 +118,11 @@ fn one_pcm(out: &mut Out, st: &mut St, rng: &mut Rng, known: &Known, cfg: &Cfg, 
     if st.struct_cases < st.max_struct_cases && (st.encodes % 3 == 0 || frames < 20) {
         for line in encoder_struct_cases(&bytes, 3, 2500) { st.struct_cases += 1; out.case(line); }
     }
+    // the same file for the model of the encoder (bounded in number and size)
+    if st.enc_cases < st.max_struct_cases * 2 && bytes.len() < 60000 && pcm.len() <= 24000 {
+        st.enc_cases += 1;
+        out.case(enc_stream_case(&bytes, &pcm, cfg.json()));
+    }
     if st.samples_emitted < 3 && bytes.len() < 600 && frames > 3 {
         st.samples_emitted += 1;
         println!("{}", obj(&[("t", esc("sample")), ("cfg", cfg.json()), ("kind", esc(kind)), ("pcm", ints(&pcm)), ("file", esc(&hex(&bytes)))]));
@@ -129,7 +135,7 @@ fn main() {
     let thorough = env_tier_thorough();
     let mut out = Out::new();
     let mut rng = Rng::new(seed, 0xC01);
-    let mut st = St { encodes: 0, decodes: 0, samples: 0, by_writer: Default::default(), by_bps: Default::default(), by_ch: Default::default(), by_rate_class: Default::default(), by_bs_class: Default::default(), by_lpc: Default::default(), by_po: Default::default(), by_kind: Default::default(), lens: Default::default(), skipped_known: 0, samples_emitted: 0, struct_cases: 0, max_struct_cases: scale(if thorough { 6000 } else { 700 }) };
+    let mut st = St { encodes: 0, decodes: 0, samples: 0, by_writer: Default::default(), by_bps: Default::default(), by_ch: Default::default(), by_rate_class: Default::default(), by_bs_class: Default::default(), by_lpc: Default::default(), by_po: Default::default(), by_kind: Default::default(), lens: Default::default(), skipped_known: 0, samples_emitted: 0, struct_cases: 0, enc_cases: 0, max_struct_cases: scale(if thorough { 6000 } else { 700 }) };
     let kinds = all_kinds();
     let known = probe_known();
     clear_panic_loc();
